@@ -1,9 +1,52 @@
-(* C13 — statements only; grows with B/*Proofs.v *)
-From Verif Require Import Bytes Keys Consts Spec Lsm Sys.
-From Verif Require LsmProofs SysProofs.
+(* C13 — Compaction retains the versions the retention settings promise. Statements only.
+   (Model: Compact.v filter_step = subcompact's loop; these are corollaries of the drop
+   classification proved in CompactProofs.v; the all-histories lift is C12's.) *)
+From Verif Require Import Bytes Keys Consts Spec Lsm Compact.
+From Verif Require CompactProofs RetentionProofs.
 Open Scope N_scope.
+Import CompactProofs.
 
-Theorem C13_pending_is_last_write : forall x es k,
-  klookup (x_pend (SysProofs.modifies x es)) k = SysProofs.last_write x es k (klookup (x_pend x) k).
-Proof. exact SysProofs.pending_is_last_write. Qed.
-Print Assumptions C13_pending_is_last_write.
+(* Compaction never removes a version newer than the discard watermark *)
+Theorem C13_keeps_above_discard : forall p, cp_drop p = [] -> forall m e,
+  sorted m -> In e m -> cp_discard p < e_ver e -> In e (compact_filter p m).
+Proof. exact RetentionProofs.keeps_above_discard. Qed.
+Print Assumptions C13_keeps_above_discard.
+
+(* the only ways a version is dropped: (a) it is older than an entry of its key at or below the
+   watermark (the NumVersionsToKeep-th one, a discard-earlier entry, a delete or an expired one),
+   or (b) it is itself a deleted/expired entry at or below the watermark and nothing below
+   overlaps; in case (b) nothing older of that key survives in the output *)
+Theorem C13_drop_classification : forall p, cp_drop p = [] -> forall m, sorted m ->
+  forall e, In e m ->
+    In e (compact_filter p m)
+    \/ (exists mk, In mk m /\ e_key mk = e_key e /\ e_ver e < e_ver mk /\ e_ver mk <= cp_discard p)
+    \/ (dead_marker p e /\ cp_overlap p = false
+        /\ forall y, In y (compact_filter p m) -> e_key y = e_key e -> e_ver e < e_ver y).
+Proof. exact CompactProofs.filter_class. Qed.
+Print Assumptions C13_drop_classification.
+
+(* merge-operator entries are never dropped on their own account *)
+Theorem C13_merge_entries_kept : forall p, cp_drop p = [] -> forall m e,
+  sorted m -> In e m -> is_merge e = true -> ~ In e (compact_filter p m) ->
+  exists mk, In mk m /\ e_key mk = e_key e /\ e_ver e < e_ver mk /\ e_ver mk <= cp_discard p.
+Proof. exact RetentionProofs.merge_entry_dropped_only_behind_marker. Qed.
+Print Assumptions C13_merge_entries_kept.
+
+(* live entries go only behind a newer entry at or below the watermark *)
+Theorem C13_live_entries : forall p, cp_drop p = [] -> forall m e,
+  sorted m -> In e m -> deleted_or_expired e (cp_now p) = false -> ~ In e (compact_filter p m) ->
+  exists mk, In mk m /\ e_key mk = e_key e /\ e_ver e < e_ver mk /\ e_ver mk <= cp_discard p.
+Proof. exact RetentionProofs.live_entry_dropped_only_behind_marker. Qed.
+Print Assumptions C13_live_entries.
+
+(* AllVersions iteration can only show what was written: the output is drawn from the input *)
+Theorem C13_nothing_invented : forall p m e,
+  In e (compact_filter p m) -> In e m.
+Proof. exact RetentionProofs.output_from_input. Qed.
+Print Assumptions C13_nothing_invented.
+
+Example C13_keep_two_versions :
+  let p := mkCP 10 2 false [] 0 in
+  compact_filter p [mkE [7] 9 0 0 0 [3]; mkE [7] 8 0 0 0 [2]; mkE [7] 7 0 0 0 [1]]
+  = [mkE [7] 9 0 0 0 [3]; mkE [7] 8 0 0 0 [2]].
+Proof. reflexivity. Qed.
